@@ -410,7 +410,7 @@ func index(cur any, st Step) (any, string, string) {
 	case rootT:
 		v, o, how := rootField(c, k)
 		return v, o, pfx + "struct" + how
-	case bool, int, float64, string:
+	case bool, int, float64, string, int8, int16, int32, int64, uint, uint8, uint16, uint32, uint64, float32:
 		return nil, rIntoScalar, "scalar"
 	}
 	switch reflect.TypeOf(cur).Kind() {
@@ -490,14 +490,20 @@ func nodeField(n Node, k string) (any, string, string) {
 		return n.Kind, reach, ".name-over-other-tag"
 	case "kind":
 		return n.Kind, reach, ".tag"
+	case "Acct":
+		return n.Acct, reach, ".name"
+	case "acct":
+		return n.Acct, reach, ".tag-with-options"
+	case "Bare":
+		return n.Bare, reach, ".name"
 	case "hidden", "secret":
 		return nil, rUnexported, ""
 	}
 	return nil, noField(k, nodeNames), ""
 }
 
-var nodeNames = []string{"Name", "Title", "title", "Count", "count", "Any", "any", "Kids", "Next", "next", "Arr", "Tags", "tags", "M", "Small", "small", "Bytes", "Leaf", "Deep", "Num", "PLeaf", "PDeep", "Short", "Long", "id", "ID", "Type", "Kind", "kind"}
-var rootNames = []string{"Plain", "Tagged", "tagged", "List", "Sub", "sub", "Any", "any", "Short", "Long", "id", "ID", "Token", "Dash", "Type", "Kind", "kind"}
+var nodeNames = []string{"Name", "Title", "title", "Count", "count", "Any", "any", "Kids", "Next", "next", "Arr", "Tags", "tags", "M", "Small", "small", "Bytes", "Leaf", "Deep", "Num", "PLeaf", "PDeep", "Short", "Long", "id", "ID", "Type", "Kind", "kind", "Acct", "acct", "Bare"}
+var rootNames = []string{"Plain", "Tagged", "tagged", "List", "Sub", "sub", "Any", "any", "Short", "Long", "id", "ID", "Token", "Dash", "Type", "Kind", "kind", "Acct", "acct", "Bare"}
 
 // noField tells a name that merely differs in case from a field name or tag (Go selectors and
 // map-like tag access are case-sensitive: it is not that field) from an unrelated name.
@@ -542,6 +548,12 @@ func rootField(r rootT, k string) (any, string, string) {
 		return r.Kind, reach, ".name-over-other-tag"
 	case "kind":
 		return r.Kind, reach, ".tag"
+	case "Acct":
+		return r.Acct, reach, ".name"
+	case "acct":
+		return r.Acct, reach, ".tag-with-options"
+	case "Bare":
+		return r.Bare, reach, ".name"
 	case "Token":
 		return r.Token, reach, ".name"
 	case "Dash":
@@ -683,7 +695,7 @@ func validSteps(cur any) []string {
 	case [3]int:
 		return idx(3)
 	case Node:
-		o := []string{"Name", "Title", "title", "Count", "count", "Any", "any", "Kids", "Next", "next", "Arr", "Tags", "tags", "M", "Small", "small", "Bytes", "Short", "id", "Long", "ID", "Type", "Kind", "kind", "Leaf", "Deep", "Num", "num", "PLeaf"}
+		o := []string{"Name", "Title", "title", "Count", "count", "Any", "any", "Kids", "Next", "next", "Arr", "Tags", "tags", "M", "Small", "small", "Bytes", "Short", "id", "Long", "ID", "Type", "Kind", "kind", "Acct", "acct", "Bare", "Leaf", "Deep", "Num", "num", "PLeaf"}
 		if c.PLeaf != nil {
 			o = append(o, "PDeep")
 		}
@@ -779,7 +791,7 @@ func invalidSteps(cur any, avoid func(id string) bool) []string {
 		return []string{"7", "x", "-1"}
 	case Node:
 		// wrong-case spellings of tags ("TITLE", "tITLE", "Id") and of Go field names ("name", "NAME")
-		o := []string{"hidden", "secret", "Nope", "name", "0", "TITLE", "tITLE", "COUNT", "ANY", "Id", "iD", "NAME", "tAGS", "SMALL"}
+		o := []string{"hidden", "secret", "Nope", "name", "0", "TITLE", "tITLE", "COUNT", "ANY", "Id", "iD", "NAME", "tAGS", "SMALL", "acct,omitempty", "omitempty", "bare"}
 		if d.(Node).PLeaf == nil {
 			o = append(o, "PDeep")
 		}
